@@ -327,6 +327,14 @@ theorem kept_longest (a b : List α) (s : List α) (h : IsCommonSubseq s a b) :
     s.length ≤ (kept (strScript a b)).length := by
   rw [(string_edit_minimal a b).2]; exact lcs_le a b s h
 
+-- [audit] non-vacuity of `kept_longest`: a non-trivial common subsequence of two concrete strings with a shared
+-- suffix and repeated characters; the theorem applied to it; and what the model script keeps on this pair.
+example : IsCommonSubseq ['b', 'a'] ['a', 'b', 'c', 'a', 'b'] ['b', 'c', 'a', 'a', 'b'] := ⟨by decide, by decide⟩
+example : 2 ≤ (kept (strScript ['a', 'b', 'c', 'a', 'b'] ['b', 'c', 'a', 'a', 'b'])).length :=
+  kept_longest _ _ ['b', 'a'] ⟨by decide, by decide⟩
+example : strScript ['a', 'b', 'c', 'a', 'b'] ['b', 'c', 'a', 'a', 'b'] =
+    [.removed 'a', .kept 'b', .kept 'c', .inserted 'a', .kept 'a', .kept 'b'] := by decide
+
 /-- The number of characters marked removed plus inserted. -/
 theorem removed_plus_inserted_eq (a b : List α) :
     removed (strScript a b) + inserted (strScript a b) = a.length + b.length - 2 * lcs a b := by
@@ -400,6 +408,12 @@ example : (['a', 'b'].length ≠ 1 ∨ ['b'].length ≠ 1) ∧ strCost ['a', 'b'
 
 theorem strCost_single (x y : α) (h : x ≠ y) : strCost [x] [y] = 1 := by
   simp [strCost, h]
+
+-- [audit] the hypothesis `a.length ≠ 1 ∨ b.length ≠ 1` of `strScript_no_subst` / `strCost_eq` is needed: for two
+-- different one-character strings the script is a substitution and the reported cost (1) is NOT the number of
+-- characters marked removed plus inserted (2).
+example : strScript ['a'] ['b'] = [CharOp.subst 'a' 'b'] ∧ strCost ['a'] ['b'] = 1 ∧
+    removed (strScript ['a'] ['b']) + inserted (strScript ['a'] ['b']) = 2 := by decide
 
 /-- non-vacuity of `strScript_no_subst` -/
 example : (['a', 'b'].length ≠ 1 ∨ ['b'].length ≠ 1) ∧
